@@ -354,6 +354,13 @@ def monitor(ops, outs):
     return fails
 
 
+def crash_key(crash):
+    """stable class of a sanitizer abort: kind without addresses / indices"""
+    k = crash.split(" @")[0]
+    k = re.sub(r"index \S+ out of bounds.*", "index out of bounds", k)
+    return "%s:crash:%s" % (P, re.sub(r"\d+", "N", k).strip())
+
+
 def proj(op, line):
     # the number of pdu_receive_data_callback calls belongs to the encryption/connection
     # event bookkeeping, not to this property
@@ -396,7 +403,7 @@ def run_c19(ctx, replay_path=None):
         fails = monitor(ops, outs)
         if r["crash"]:
             k = len(outs)
-            fails.append((k, "%s:crash:%s" % (P, r["crash"].split(" @")[0]), "%s at op `%s`" % (r["crash"], ops[min(k, len(ops) - 1)][:80])))
+            fails.append((k, crash_key(r["crash"]), "%s at op `%s`" % (r["crash"], ops[min(k, len(ops) - 1)][:80])))
         for k, key, what in fails[:1]:
             fops = ops[:k + 1]
             if key not in shrunk and len(shrunk) < 4:
@@ -406,7 +413,7 @@ def run_c19(ctx, replay_path=None):
                     rr = ctx.run_impl([cand])[0]
                     ff = monitor(cand, rr["out"])
                     if rr["crash"]:
-                        ff.append((0, "%s:crash:%s" % (P, rr["crash"].split(" @")[0]), ""))
+                        ff.append((0, crash_key(rr["crash"]), ""))
                     return any(x[1] == key for x in ff)
                 fops = ctx.shrink(fops, still, budget=60)
             res.failures.append({"key": key, "what": what, "ops": fops})
